@@ -5,10 +5,10 @@
    destinations, by showing the consumed bytes are in the specification's form and using the
    acceptance lemmas of SpecProofs. *)
 From Coq Require Import ZifyN ZifyNat ZifyBool.
-From Model Require Import Bytes Prim Tables Cert KAC Mapping Sig LS.
+From Model Require Import Bytes Prim Tables Cert KAC Mapping Sig LS RI.
 From Gen Require Import Consts Tables.
 From Spec Require Import Wire.
-From Proofs Require Import BytesLemmas PrimProofs Frame SliceLemmas LeafProofs TableProofs SpecProofs KacProofs KacRT OffProofs MapRT LS2RT.
+From Proofs Require Import BytesLemmas PrimProofs Frame SliceLemmas LeafProofs TableProofs SpecProofs KacProofs KacRT OffProofs MapRT LS2RT LSRT UptoRT.
 Ltac Zify.zify_post_hook ::= Z.div_mod_to_equations.
 Open Scope Z_scope.
 Local Arguments Z.add : simpl never.
@@ -620,4 +620,283 @@ Proof.
   { rewrite <- E in Ex. apply (f_equal (@rev _)) in Ex. rewrite !rev_app_distr in Ex. apply app_inv_head in Ex.
     apply (f_equal (@rev _)) in Ex. rewrite !rev_involutive in Ex. symmetry. exact Ex. }
   subst c. rewrite app_nil_r in K. destruct (K MS) as [l' [R' B']]. exists l'. split; [exact R'|rewrite B'; exact B].
+Qed.
+
+(* ---- RouterAddress ---- *)
+Theorem read_router_address_retail d a r : wf d -> read_router_address d = Ok (a, r) ->
+  exists c, d = c ++ r /\ wf r /\ (12 <= length c)%nat /\ forall t', wf t' -> read_router_address (c ++ t') = Ok (a, t').
+Proof.
+  intros W. unfold read_router_address at 1. change c_router_address_ROUTER_ADDRESS_MIN_SIZE with 12.
+  destruct (length d =? 0)%nat eqn:L0; [discriminate|].
+  destruct (Z.of_nat (length d) <? 12) eqn:L12; [discriminate|].
+  destruct (read_integer d 1) as [[ci r0]| |] eqn:RI; cbn [rbind fst snd]; try discriminate.
+  destruct (read_integer_spec _ _ _ _ RI ltac:(lia)) as [_ B]. destruct (B ltac:(lia)) as [E0 Lci].
+  destruct (read_date r0) as [[dt r1]| |] eqn:RD; cbn [rbind fst snd]; try discriminate.
+  destruct (read_date_frame _ _ _ RD) as [E1 Ldt].
+  destruct (read_i2pstring r1) as [[st r2]| |] eqn:RS; cbn [rbind fst snd]; try discriminate.
+  destruct (read_i2pstring_valid _ _ _ RS) as [SV E2].
+  assert (W2 : wf r2).
+  { rewrite E0, E1, E2 in W. repeat (apply wf_app in W; destruct W as [_ W]). exact W. }
+  destruct (read_mapping r2) as [[[m rr] errs]|] eqn:RM; [|discriminate].
+  destruct (embedded_mapping_ok errs) eqn:EM; [|discriminate].
+  intros H. apply Ok_pair_inj in H. destruct H as [<- <-].
+  assert (FE : fatal_errors errs = []).
+  { unfold embedded_mapping_ok in EM. apply Nat.eqb_eq in EM. destruct (fatal_errors errs); [reflexivity|discriminate]. }
+  destruct (read_mapping_inv _ _ _ _ RM FE) as [slack [Eb [_ [Lf _]]]].
+  set (mb := firstn 2 r2 ++ serialize_pairs (map_values m) ++ slack) in *.
+  assert (EM1 : r2 = mb ++ rr) by (unfold mb; rewrite <- !app_assoc; exact Eb).
+  assert (Wrr : wf rr) by (rewrite EM1 in W2; apply wf_app in W2; tauto).
+  assert (Lmb : (2 <= length mb)%nat) by (unfold mb; rewrite app_length; lia).
+  assert (Lst : (1 <= length st)%nat) by (destruct st; [discriminate|cbn [length]; lia]).
+  exists (ci ++ dt ++ st ++ mb). split; [rewrite E0, E1, E2, EM1, <- !app_assoc; reflexivity|]. split; [exact Wrr|].
+  split; [rewrite !app_length; lia|].
+  intros t' Wt'. unfold read_router_address. change c_router_address_ROUTER_ADDRESS_MIN_SIZE with 12.
+  rewrite <- !app_assoc.
+  assert (LL : (12 <= length (ci ++ dt ++ st ++ mb ++ t'))%nat) by (rewrite !app_length; lia).
+  replace (length (ci ++ dt ++ st ++ mb ++ t') =? 0)%nat with false by lia.
+  replace (Z.of_nat (length (ci ++ dt ++ st ++ mb ++ t')) <? 12) with false by lia.
+  unfold read_integer. rewrite MAXI_8. change ((1 <=? 0) || (1 >? 8))%bool with false. cbv iota.
+  replace (Z.of_nat (length (ci ++ dt ++ st ++ mb ++ t')) <? 1) with false by lia.
+  rewrite (slice_to_prefix' ci (dt ++ st ++ mb ++ t')) by lia. rewrite (slice_from_prefix' ci (dt ++ st ++ mb ++ t')) by lia.
+  cbn [rbind fst snd]. unfold read_date. rewrite (take_app' dt (st ++ mb ++ t') DATE_SIZE) by (rewrite Ldt; reflexivity).
+  cbn [rbind fst snd]. rewrite (read_i2pstring_app st (mb ++ t') SV). cbn [rbind fst snd].
+  assert (Wm : wf (mb ++ rr)) by (rewrite <- EM1; exact W2).
+  rewrite EM1 in RM.
+  destruct (read_mapping_retail mb rr t' m errs Wm RM FE) as [e' [RM' FE']].
+  rewrite RM'. unfold embedded_mapping_ok. rewrite FE'. reflexivity.
+Qed.
+
+(* ---- RouterInfo ---- *)
+(* the type of the trailing signature as ReadRouterInfo derives it from the identity's certificate *)
+Definition ri_sig_type (k : kac) : res Z :=
+  let c := dest_cert k in
+  do t <- cert_type c; do _d <- cert_data c;
+  if t =? c_certificate_CERT_KEY then cert_sig_type c else Ok c_signature_SIGNATURE_TYPE_DSA_SHA1.
+
+Lemma cert_data_of_read x c r : wf x -> read_certificate x = Ok (c, r) -> exists d, cert_data c = Ok d.
+Proof.
+  intros W H. destruct (cert_spec_form x c r W H) as [t [p [Ht [Hp [Ex [K [LI [PF CB]]]]]]]].
+  destruct (read_certificate_shape _ _ _ W H) as [L3 [Ec [B _]]].
+  unfold cert_data, cert_length_field.
+  assert (V : cert_is_valid c = true) by (rewrite Ec; apply cert_valid_mk; lia). rewrite V.
+  change c_certificate_CERT_EMPTY_PAYLOAD_SIZE with 0. change c_certificate_CERT_MAX_PAYLOAD_SIZE with 65535.
+  unfold nlen in Hp. replace ((cert_len_int c <? 0) || (cert_len_int c >? 65535))%bool with false by lia. cbn [rbind].
+  assert (PL : (length p <= length (c_payload c))%nat) by (rewrite Ec; cbn [c_payload]; rewrite skipn_length; lia).
+  replace (cert_len_int c >? Z.of_nat (length (c_payload c))) with false by lia.
+  rewrite slice_ok by lia. eauto.
+Qed.
+
+Lemma keycert_cert_facts x kc r : wf x -> new_key_certificate x = Ok (kc, r) ->
+  cert_type (kc_cert kc) = Ok 5 /\ (exists d, cert_data (kc_cert kc) = Ok d) /\ cert_sig_type (kc_cert kc) = Ok (kc_signing_type kc).
+Proof.
+  intros W. unfold new_key_certificate.
+  destruct (read_certificate x) as [[c r0]| |] eqn:RC; cbn [rbind fst snd]; try discriminate.
+  destruct (keycert_from_cert c) as [k0| |] eqn:KC; cbn [rbind]; try discriminate.
+  intros H. apply Ok_pair_inj in H. destruct H as [<- <-].
+  destruct (read_certificate_shape _ _ _ W RC) as [L3 [Ec _]].
+  assert (Wp : wf (c_payload c)) by (rewrite Ec; cbn [c_payload]; apply wf_skipn, W).
+  revert KC. unfold keycert_from_cert.
+  destruct (cert_type c) as [ty| |] eqn:CT; cbn [rbind]; try discriminate.
+  destruct (ty =? c_certificate_CERT_KEY) eqn:TK; cbn [negb]; [|discriminate].
+  assert (ty = 5) by (change c_certificate_CERT_KEY with 5 in TK; lia). subst ty.
+  destruct (cert_data c) as [d| |] eqn:CD; cbn [rbind]; try discriminate.
+  destruct (length d <? 4)%nat eqn:E4; [discriminate|]. apply Nat.ltb_ge in E4.
+  rewrite !slice_ok by lia. cbn [rbind]. change (2 - 0)%nat with 2%nat. change (skipn 0 d) with d.
+  intros H. apply Ok_inj in H. subst k0. cbn [kc_cert]. split; [exact CT|]. split; [eauto|].
+  (* d is a prefix of the payload *)
+  assert (PD : d = firstn (length d) (c_payload c)).
+  { revert CD. unfold cert_data. destruct (cert_length_field c) as [l| |]; cbn [rbind]; try discriminate.
+    destruct (l >? Z.of_nat (length (c_payload c))) eqn:EL.
+    - intros H. apply Ok_inj in H. subst d. rewrite firstn_all. reflexivity.
+    - destruct (Z_lt_le_dec l 0) as [N|N].
+      + replace (Z.to_nat l) with 0%nat by lia. unfold slice. cbn. intros H. apply Ok_inj in H. subst d. reflexivity.
+      + rewrite slice_ok by lia. cbn [skipn]. rewrite Nat.sub_0_r. intros H. apply Ok_inj in H. subst d.
+        rewrite firstn_length. replace (Nat.min (Z.to_nat l) (length (c_payload c))) with (Z.to_nat l) by lia. reflexivity. }
+  assert (LP : (length d <= length (c_payload c))%nat).
+  { rewrite PD at 1. rewrite firstn_length. lia. }
+  unfold cert_sig_type, cert_key_type_at. rewrite CT. cbn [rbind]. change (5 =? c_certificate_CERT_KEY) with true. cbn [negb].
+  change c_certificate_CERT_MIN_KEY_PAYLOAD_SIZE with 4.
+  replace (Z.of_nat (length (c_payload c)) <? 4) with false by lia.
+  change (Z.to_nat c_certificate_CERT_KEY_SIG_TYPE_OFFSET) with 0%nat. rewrite slice_ok by lia. cbn [rbind skipn]. change (0 + 2 - 0)%nat with 2%nat.
+  assert (F2 : firstn 2 (c_payload c) = firstn 2 d).
+  { rewrite PD. rewrite firstn_firstn. replace (Nat.min 2 (length d)) with 2%nat by lia. reflexivity. }
+  rewrite F2. unfold kc_signing_type. cbn [kc_spk].
+  assert (L2 : length (firstn 2 d) = 2%nat) by (rewrite firstn_length; lia).
+  assert (W2 : wf (firstn 2 d)) by (rewrite <- F2; apply wf_firstn, Wp).
+  destruct (integer_int_2bytes _ L2 W2) as [I _]. rewrite I. reflexivity.
+Qed.
+
+Lemma ri_sig_type_parsed x k r : wf x -> read_keys_and_cert x = Ok (k, r) ->
+  ri_sig_type k = Ok (if Z.of_N (nth 384 x 0%N) =? 5 then kc_signing_type (k_kc k) else 0).
+Proof.
+  intros W. unfold read_keys_and_cert. change KAC_MIN with 387. change (Z.to_nat KAC_DATA) with 384%nat.
+  destruct (Z.of_nat (length x) <? 387) eqn:E; [discriminate|].
+  assert (L : (387 <= length x)%nat) by lia.
+  destruct (index 384 x) as [ct| |] eqn:IX; cbn [rbind]; try discriminate.
+  assert (NT : nth 384 x 0%N = ct).
+  { revert IX. unfold index. destruct (nth_error x 384) as [v|] eqn:NE; [|discriminate]. intros H. apply Ok_inj in H. subst v.
+    apply nth_error_nth. exact NE. }
+  rewrite NT. rewrite slice_from_ok by lia. cbn [rbind].
+  assert (Ws : wf (skipn 384 x)) by (apply wf_skipn, W).
+  assert (L4 : (384 <= length x)%nat) by lia.
+  change c_certificate_CERT_KEY with 5. change c_certificate_CERT_NULL with 0.
+  destruct (Z.of_N ct =? 5) eqn:CK.
+  - destruct (new_key_certificate (skipn 384 x)) as [[kc rem]| |] eqn:NK; cbn [rbind fst snd]; try discriminate.
+    intros H. destruct (kac_from_keycert_inv _ _ _ _ _ L4 H) as [cl [sl [_ [_ [_ [_ [_ [_ [_ ->]]]]]]]]].
+    destruct (keycert_cert_facts _ _ _ Ws NK) as [CT [[d CD] CS]].
+    unfold ri_sig_type, dest_cert, kac_of. cbn [k_kc]. rewrite CT, CD. cbn [rbind]. change (5 =? c_certificate_CERT_KEY) with true. cbv iota. exact CS.
+  - destruct (Z.of_N ct =? 0) eqn:CN; [|discriminate].
+    destruct (read_certificate (skipn 384 x)) as [[c rem]| |] eqn:RC; cbn [rbind fst snd]; try discriminate.
+    intros H. destruct (kac_from_keycert_inv _ _ _ _ _ L4 H) as [cl [sl [_ [_ [_ [_ [_ [_ [_ ->]]]]]]]]].
+    destruct (cert_data_of_read _ _ _ Ws RC) as [d CD].
+    destruct (read_certificate_shape _ _ _ Ws RC) as [L3 [Ec _]].
+    assert (CT : cert_type c = Ok 0).
+    { unfold cert_type. assert (V : cert_is_valid c = true) by (rewrite Ec; apply cert_valid_mk; lia). rewrite V.
+      assert (KI : cert_kind_int c = 0).
+      { unfold cert_kind_int. rewrite Ec. cbn [c_kind].
+        assert (F1 : firstn 1 (skipn 384 x) = [ct]).
+        { revert IX. unfold index. rewrite <- (firstn_skipn 384 x) at 1. rewrite nth_error_app2 by (rewrite firstn_length; lia).
+          rewrite firstn_length. replace (384 - Nat.min 384 (length x))%nat with 0%nat by lia.
+          destruct (skipn 384 x) as [|h z]; cbn [nth_error]; [discriminate|]. intros HH. apply Ok_inj in HH. subst h. reflexivity. }
+        rewrite F1. unfold integer_int. rewrite int_from_bytes_le8 by (cbn; lia). cbn [be_decode fold_left].
+        assert (ct < 256)%N by (rewrite <- NT; clear -W L; revert L; generalize 384%nat; induction W; intros [|n] Ln; cbn [nth length] in *; try lia; auto; apply IHW; lia).
+        rewrite wrap64_small by (unfold two63; lia). lia. }
+      rewrite KI. reflexivity. }
+    unfold ri_sig_type, dest_cert, kac_of. cbn [k_kc kc_cert]. rewrite CT, CD. cbn [rbind]. reflexivity.
+Qed.
+
+Theorem read_router_identity_retail x k r r' : wf x -> read_router_identity x = Ok (k, r) ->
+  exists b k', kac_bytes k = Ok b /\ x = b ++ r /\ (387 <= length b)%nat /\
+    read_router_identity (b ++ r') = Ok (k', r') /\ kac_bytes k' = Ok b /\
+    (wf r' -> ri_sig_type k' = ri_sig_type k).
+Proof.
+  intros W. unfold read_router_identity at 1.
+  destruct (read_keys_and_cert x) as [[k0 r0]| |] eqn:RK; cbn [rbind fst snd]; try discriminate.
+  destruct (ri_types_ok k0) eqn:TO; [|discriminate]. intros H. apply Ok_pair_inj in H. destruct H as [<- <-].
+  destruct (read_keys_and_cert_retail x k0 r0 r' W RK) as [b [k' [KB [Ex [RK' [KB' [T2 T1]]]]]]].
+  assert (LB : (387 <= length b)%nat).
+  { destruct (kac_remainder _ _ _ RK) as [L387 [c RC]].
+    destruct (read_certificate_shape _ _ _ (wf_skipn 384 _ W) RC) as [L3 [_ [Bc Er]]].
+    assert (LR : (length r0 <= length x - 387)%nat) by (rewrite Er, !skipn_length; lia).
+    assert (LX : length x = (length b + length r0)%nat) by (rewrite Ex at 1; apply app_length).
+    lia. }
+  exists b, k'. split; [exact KB|]. split; [exact Ex|]. split; [exact LB|]. split.
+  - unfold read_router_identity. rewrite RK'. cbn [rbind fst snd].
+    replace (ri_types_ok k') with (ri_types_ok k0) by (unfold ri_types_ok; rewrite T1, T2; reflexivity).
+    rewrite TO. reflexivity.
+  - split; [exact KB'|]. intros Wr'.
+    assert (Wb : wf (b ++ r')).
+    { apply wf_app. split; [|exact Wr']. rewrite Ex in W. apply wf_app in W. tauto. }
+    rewrite (ri_sig_type_parsed _ _ _ Wb RK'), (ri_sig_type_parsed _ _ _ W RK), T2.
+    rewrite Ex. rewrite !app_nth1 by lia. reflexivity.
+Qed.
+
+Lemma read_addresses_retail : forall k d al r, wf d -> read_addresses k d = Ok (al, r) ->
+  exists c, d = c ++ r /\ wf r /\ forall t', wf t' -> read_addresses k (c ++ t') = Ok (al, t').
+Proof.
+  induction k as [|k IH]; intros d al r W H; cbn [read_addresses] in H.
+  - apply Ok_pair_inj in H. destruct H as [<- <-]. exists []. split; [reflexivity|]. split; [exact W|]. intros t' _. reflexivity.
+  - destruct (read_router_address d) as [[a r0]| |] eqn:RA; cbn [rbind fst snd] in H; try discriminate.
+    destruct (read_router_address_retail _ _ _ W RA) as [c1 [E1 [W0 [_ K1]]]].
+    destruct (read_addresses k r0) as [[al' r']| |] eqn:RR; cbn [rbind fst snd] in H; try discriminate.
+    apply Ok_pair_inj in H. destruct H as [<- <-].
+    destruct (IH _ _ _ W0 RR) as [c2 [E2 [Wr K2]]].
+    exists (c1 ++ c2). split; [rewrite E1, E2, app_assoc; reflexivity|]. split; [exact Wr|].
+    intros t' Wt'. cbn [read_addresses]. rewrite <- app_assoc.
+    assert (Wc : wf (c2 ++ t')).
+    { apply wf_app. split; [|exact Wt']. rewrite E2 in W0. apply wf_app in W0. tauto. }
+    rewrite (K1 (c2 ++ t') Wc). cbn [rbind fst snd]. rewrite (K2 t' Wt'). reflexivity.
+Qed.
+
+Lemma ri_sig_bind {A} (k : kac) (K : Z -> res A) :
+  (do t <- cert_type (dest_cert k); do _d <- cert_data (dest_cert k);
+   do st <- (if t =? c_certificate_CERT_KEY then cert_sig_type (dest_cert k) else Ok c_signature_SIGNATURE_TYPE_DSA_SHA1); K st)
+  = (do st <- ri_sig_type k; K st).
+Proof.
+  unfold ri_sig_type. destruct (cert_type (dest_cert k)); cbn [rbind]; try reflexivity.
+  destruct (cert_data (dest_cert k)); cbn [rbind]; reflexivity.
+Qed.
+
+Theorem read_router_info_retail d i r r' : wf d -> wf r' -> read_router_info d = Ok (i, r) ->
+  exists c i', d = c ++ r /\ read_router_info (c ++ r') = Ok (i', r') /\ router_info_bytes i' = router_info_bytes i.
+Proof.
+  intros W Wr'. unfold read_router_info at 1.
+  destruct (read_router_identity d) as [[id r0]| |] eqn:RID; cbn [rbind fst snd]; try discriminate.
+  assert (W0 : wf r0).
+  { destruct (read_router_identity_RoundTrip _ _ _ W RID) as [ib0 [_ E0]]. rewrite <- E0 in W. apply wf_app in W. tauto. }
+  destruct (read_date r0) as [[pub r1]| |] eqn:RD; cbn [rbind fst snd]; try discriminate.
+  destruct (read_date_frame _ _ _ RD) as [E1 Lp].
+  destruct (read_integer r1 1) as [[sz r2]| |] eqn:RI1; cbn [rbind fst snd]; try discriminate.
+  pose proof (read_integer1_split _ _ _ RI1) as E2.
+  assert (W2 : wf r2).
+  { rewrite E1, E2 in W0. repeat (apply wf_app in W0; destruct W0 as [_ W0]). exact W0. }
+  destruct (read_addresses (Z.to_nat (integer_int sz)) r2) as [[al r3]| |] eqn:RA; cbn [rbind fst snd]; try discriminate.
+  destruct (read_addresses_retail _ _ _ _ W2 RA) as [ca [E3 [W3 KA]]].
+  destruct (read_integer r3 1) as [[ps r4]| |] eqn:RI2; cbn [rbind fst snd]; try discriminate.
+  pose proof (read_integer1_split _ _ _ RI2) as E4.
+  assert (W4 : wf r4) by (rewrite E4 in W3; apply wf_app in W3; tauto).
+  destruct (read_mapping r4) as [[[m r5] errs]|] eqn:RM; [|discriminate].
+  destruct (embedded_mapping_ok errs) eqn:EM; cbn [negb]; [|discriminate].
+  assert (FE : fatal_errors errs = []).
+  { unfold embedded_mapping_ok in EM. apply Nat.eqb_eq in EM. destruct (fatal_errors errs); [reflexivity|discriminate]. }
+  destruct (read_mapping_inv _ _ _ _ RM FE) as [slack [Eb _]].
+  set (mb := firstn 2 r4 ++ serialize_pairs (map_values m) ++ slack) in *.
+  assert (EM1 : r4 = mb ++ r5) by (unfold mb; rewrite <- !app_assoc; exact Eb).
+  (* the signature type, as a function of the identity *)
+  rewrite ri_sig_bind.
+  destruct (ri_sig_type id) as [st| |] eqn:ST; cbn [rbind]; try discriminate.
+  destruct (sig_length st) as [sn|] eqn:SL; [|discriminate].
+  destruct (read_signature r5 st) as [[sg r6]| |] eqn:RS; cbn [rbind fst snd]; try discriminate.
+  intros H. apply Ok_pair_inj in H. destruct H as [<- <-].
+  destruct (read_signature_retail _ _ _ _ r' RS) as [E6 RS'].
+  (* everything after the identity, with the new tail *)
+  set (rest := pub ++ sz ++ ca ++ ps ++ mb ++ sig_bytes sg).
+  assert (ER0 : r0 = rest ++ r6).
+  { unfold rest. rewrite E1, E2, E3, E4, EM1, E6, <- !app_assoc. reflexivity. }
+  assert (Wrest : wf (rest ++ r')).
+  { rewrite ER0 in W0. apply wf_app in W0. destruct W0 as [Wa _]. apply wf_app. split; assumption. }
+  destruct (read_router_identity_retail d id r0 (rest ++ r') W RID) as [ib [id' [KB [Ed [LB [RID' [KB' ST']]]]]]].
+  exists (ib ++ rest), (mkRInfo id' pub sz al ps m sg). split; [rewrite Ed, ER0, <- app_assoc; reflexivity|]. split.
+  - unfold read_router_info. rewrite <- app_assoc. rewrite RID'. cbn [rbind fst snd].
+    unfold rest. rewrite <- !app_assoc.
+    unfold read_date. rewrite (take_app' pub _ DATE_SIZE) by (rewrite Lp; reflexivity). cbn [rbind fst snd].
+    (* size byte *)
+    assert (Lsz : length sz = 1%nat /\ length ps = 1%nat).
+    { destruct (read_integer_spec _ _ _ _ RI1 ltac:(lia)) as [A1 B1]. destruct (read_integer_spec _ _ _ _ RI2 ltac:(lia)) as [A2 B2].
+      (* both integers are followed by at least a signature, so they were not truncated reads *)
+      assert (L3 : (1 <= length r3)%nat).
+      { destruct (Z_lt_le_dec (Z.of_nat (length r3)) 1) as [S|S]; [|lia].
+        exfalso. destruct (A2 S) as [_ E]. rewrite E in RM. cbn in RM. apply Some_triple_inj in RM. destruct RM as [_ [_ EE]].
+        rewrite <- EE in EM. cbn in EM. discriminate. }
+      destruct (B2 ltac:(lia)) as [_ L2]. split; [|lia].
+      destruct (Z_lt_le_dec (Z.of_nat (length r1)) 1) as [S|S]; [|destruct (B1 S) as [_ L1]; lia].
+      destruct (A1 S) as [_ E]. exfalso. rewrite E in RA. rewrite E3 in E. apply (f_equal (@length _)) in E. rewrite !app_length in E. cbn [length] in E. lia. }
+    destruct Lsz as [Lsz Lps].
+    unfold read_integer. rewrite MAXI_8. change ((1 <=? 0) || (1 >? 8))%bool with false. cbv iota.
+    match goal with |- context [Z.of_nat (length (sz ++ ?z)) <? 1] => replace (Z.of_nat (length (sz ++ z)) <? 1) with false by (rewrite app_length; lia) end.
+    rewrite (slice_to_prefix' sz _ (Z.to_nat 1)) by (rewrite Lsz; reflexivity).
+    rewrite (slice_from_prefix' sz _ (Z.to_nat 1)) by (rewrite Lsz; reflexivity). cbn [rbind fst snd].
+    assert (Wa : wf (ps ++ mb ++ sig_bytes sg ++ r')).
+    { pose proof Wrest as Wx. unfold rest in Wx. rewrite <- !app_assoc in Wx. do 3 (apply wf_app in Wx; destruct Wx as [_ Wx]). exact Wx. }
+    rewrite (KA _ Wa). cbn [rbind fst snd].
+    match goal with |- context [Z.of_nat (length (ps ++ ?z)) <? 1] => replace (Z.of_nat (length (ps ++ z)) <? 1) with false by (rewrite app_length; lia) end.
+    rewrite (slice_to_prefix' ps _ (Z.to_nat 1)) by (rewrite Lps; reflexivity).
+    rewrite (slice_from_prefix' ps _ (Z.to_nat 1)) by (rewrite Lps; reflexivity). cbn [rbind fst snd].
+    assert (Wm : wf (mb ++ r5)) by (rewrite <- EM1; exact W4).
+    rewrite EM1 in RM.
+    destruct (read_mapping_retail mb r5 (sig_bytes sg ++ r') m errs Wm RM FE) as [e' [RM' FE']].
+    rewrite RM'. unfold embedded_mapping_ok. rewrite FE'. cbn [Nat.eqb length negb].
+    rewrite ri_sig_bind. rewrite (ST' Wrest), ST. cbn [rbind]. rewrite SL. rewrite RS'. reflexivity.
+  - unfold router_info_bytes. cbn [ri_ident ri_published ri_size ri_addrs ri_peer_size ri_options ri_sig]. rewrite KB', KB. reflexivity.
+Qed.
+
+Theorem read_router_info_reparse d i r b : wf d -> read_router_info d = Ok (i, r) ->
+  router_info_bytes i = Ok b -> b ++ r = d ->
+  exists i', read_router_info b = Ok (i', []) /\ router_info_bytes i' = Ok b.
+Proof.
+  intros W H B E. destruct (read_router_info_retail d i r [] W (Forall_nil _) H) as [c [i' [Ex [R' B']]]].
+  assert (c = b).
+  { rewrite <- E in Ex. apply (f_equal (@rev _)) in Ex. rewrite !rev_app_distr in Ex. apply app_inv_head in Ex.
+    apply (f_equal (@rev _)) in Ex. rewrite !rev_involutive in Ex. symmetry. exact Ex. }
+  subst c. rewrite app_nil_r in R'. exists i'. split; [exact R'|rewrite B'; exact B].
 Qed.
